@@ -206,12 +206,13 @@ def execute(case):
                 try:
                     if k == "attach":
                         r = p.attach_module(m)
-                        if r is not m:
-                            violations.append(_v("attach_returns_module", after=after, detail={"op": i}))
+                        if r is not m:  # API convenience, not part of the statement: a probe, not an oracle
+                            probes["attach_module_did_not_return_module"] = probes.get("attach_module_did_not_return_module", 0) + 1
                     else:
                         p += m
                         if p is not w.projects[pi]:
-                            violations.append(_v("iadd_returns_project", after=after, detail={"op": i}))
+                            probes["iadd_did_not_return_project"] = probes.get("iadd_did_not_return_project", 0) + 1
+                            p = w.projects[pi]
                     refused = False
                 except rv.errors.ModuleOwnershipError:
                     refused = True
@@ -266,7 +267,7 @@ def execute(case):
                     w.pslots[pi].append(key)
                     w.powner[key] = pi
                     if idx != len(w.pslots[pi]) - 1:
-                        violations.append(_v("attach_pattern_returns_index", after="attach_pattern", detail={"op": i, "idx": idx}))
+                        probes["attach_pattern_did_not_return_index"] = probes.get("attach_pattern_did_not_return_index", 0) + 1
                 elif kind == 1:
                     p.attach_pattern(None)
                     w.pslots[pi].append(None)
@@ -334,7 +335,9 @@ def execute(case):
                         old = note.module
                         try:
                             note.mod = w.mods[free[op.get("m", 0) % len(free)]]
-                            violations.append(_v("note_mod_free_module_refused", after="note_mod_set_free", detail={"op": i}))
+                            # the statement is silent about free modules: a probe, not an oracle
+                            probes["note_mod_accepts_free_module"] = probes.get("note_mod_accepts_free_module", 0) + 1
+                            note.module = old
                         except rv.errors.ModuleOwnershipError:
                             if note.module != old:
                                 violations.append(_v("refusal_changes_nothing", after="note_mod_set_free", detail={"op": i}))
